@@ -118,7 +118,17 @@ def rp1(model):
         flat(val)
         for p in parts:
             if isinstance(p, ast.Constant) and isinstance(p.value, str):
-                r.ok(p, 'literal pattern part %r' % p.value, sample=False)
+                try:
+                    tree = sre_parse.parse(p.value)
+                    mn = max_newlines(list(tree))
+                except Exception:
+                    mn = 0      # fragments that do not parse alone are parts of a larger literal
+                if mn is None or mn > 1:
+                    r.fail(p, 'the pattern part %r can match several line breaks: a phrase then matches '
+                           'across a blank line and the replacement removes the paragraph break'
+                           % p.value, witness="the rule 'Well, &' and a paragraph that starts with 'Well,'")
+                else:
+                    r.ok(p, 'literal pattern part %r' % p.value, sample=False)
             elif isinstance(p, ast.Name) and p.id == pat:
                 pass
             elif isinstance(p, ast.Call) and unparse(p.func) == 're.escape':
